@@ -11,10 +11,11 @@ From PV Require Import Model.Workflow gen.Workflow_gen Proofs.WorkflowProofs.
 
 (* the generated facts are the ones the theorems need: seeds contain the workflow id, the sub-task record key
    contains the call identity, the replay branch of execute_task hands the recorded invocation back
-   unconditionally, the value generators keep no state outside their own call *)
+   unconditionally, the value generators keep no state outside their own call, execute_task keeps no state
+   outside the workflow data (no class-level / module-level container) *)
 Theorem gen_seed_and_key_facts :
   c_seed_wf gen_cfg = true /\ c_task_key_call gen_cfg = true /\
-  c_replay_uncond gen_cfg = true /\ c_gen_private gen_cfg = true.
+  c_replay_uncond gen_cfg = true /\ c_gen_private gen_cfg = true /\ c_exec_private gen_cfg = true.
 Proof. exact gen_facts_good. Qed.
 Print Assumptions gen_seed_and_key_facts.
 
@@ -43,7 +44,8 @@ Theorem returned_values_are_own : forall evs e w o v,
   owned (run fixed_cfg evs) w v.
 Proof.
   exact (values_owned_lemma fixed_cfg eq_refl (proj1 (proj2 (proj2 gen_facts_good)))
-           (proj2 (proj2 (proj2 gen_facts_good))) (proj1 gen_facts_good)).
+           (proj1 (proj2 (proj2 (proj2 gen_facts_good)))) (proj2 (proj2 (proj2 (proj2 gen_facts_good))))
+           (proj1 gen_facts_good)).
 Qed.
 Print Assumptions returned_values_are_own.
 
@@ -51,14 +53,15 @@ Theorem records_are_own : forall evs w k n v,
   slookup (w, KOp k n) (store (run fixed_cfg evs)) = Some v -> owned (run fixed_cfg evs) w v.
 Proof.
   exact (records_owned_lemma fixed_cfg eq_refl (proj1 (proj2 (proj2 gen_facts_good)))
-           (proj2 (proj2 (proj2 gen_facts_good))) (proj1 gen_facts_good)).
+           (proj1 (proj2 (proj2 (proj2 gen_facts_good)))) (proj2 (proj2 (proj2 (proj2 gen_facts_good))))
+           (proj1 gen_facts_good)).
 Qed.
 Print Assumptions records_are_own.
 
 (* C18 at full strength, for any configuration with these facts *)
 Theorem c18_per_execution : forall c,
   c_scope c = PerExecution -> c_seed_wf c = true -> c_task_key_call c = true ->
-  c_replay_uncond c = true -> c_gen_private c = true -> C18_statement c.
+  c_replay_uncond c = true -> c_gen_private c = true -> c_exec_private c = true -> C18_statement c.
 Proof. exact per_execution_satisfies. Qed.
 Print Assumptions c18_per_execution.
 
@@ -68,6 +71,19 @@ Theorem cached_executor_refuted :
   ~ nth_value_stable_stmt cached_cfg /\ ~ sub_task_once_stmt cached_cfg /\ ~ no_mix_stmt cached_cfg.
 Proof. exact cached_cfg_refuted. Qed.
 Print Assumptions cached_executor_refuted.
+
+(* the executor kept in a container of the process keyed by the invocation id / the invocation object (which
+   compares by id; also a weak container while an object of an earlier attempt is referenced): a re-execution
+   in the same process image continues the counters (computed witness) *)
+Theorem keyed_executor_cache_refuted : ~ nth_value_stable_stmt keyed_cfg.
+Proof. exact keyed_executor_refuted. Qed.
+Print Assumptions keyed_executor_cache_refuted.
+
+(* execute_task behind a process-wide cache keyed by the call only: the second workflow making the identical
+   call is handed the first workflow's invocation and nothing is launched for it (computed witness) *)
+Theorem shared_subtask_cache_is_refuted : ~ sub_task_once_stmt subtask_cache_cfg /\ ~ no_mix_stmt subtask_cache_cfg.
+Proof. exact shared_subtask_cache_refuted. Qed.
+Print Assumptions shared_subtask_cache_is_refuted.
 
 (* a replay branch of execute_task that depends on anything but the record (e.g. on the state of the recorded
    invocation) launches an identical call again once that state changes (computed witness: the recorded
